@@ -191,6 +191,15 @@ def table_params(prefix, rows, slen=2, krange=None, irange=None, edomain=None, p
     return params, pre_b, pre_o, '[' + ', '.join(rows_expr) + ']'
 
 
+def rotating(names, seed, k):
+    """k members of `names` chosen by VERIF_SEED: repeated quick runs with different seeds sweep through the thorough family."""
+    import random
+    names = list(names)
+    rnd = random.Random(1000003 * (seed + 1))
+    rnd.shuffle(names)
+    return names[:k]
+
+
 def shape_name(rows):
     return '/'.join(r if r else '-' for r in rows) if rows else 'empty'
 
@@ -216,13 +225,13 @@ def header_params(prefix, spec, hlen):
 
 
 def query_obl(prop, case_name, q, a_rows, b_rows=None, slen=2, krange=None, irange=None, timeout=60, check_sources=False, mutate_output=False,
-              expect='hold', finding=None, extra_pre=None, text=None, tag='', counting=False, cycle=0, ha_spec=None, hb_spec=None, hlen=2, edomain=None):
+              expect='hold', finding=None, extra_pre=None, text=None, tag='', counting=False, cycle=0, ha_spec=None, hb_spec=None, hlen=2, edomain=None, pdomain=('7', 'x')):
     """Obligation: for every table of the given shape, real engine == reference on query case `case_name` of property module `prop`."""
-    pa, pb1, po1, texpr = table_params('a', a_rows, slen, krange, irange, edomain)
+    pa, pb1, po1, texpr = table_params('a', a_rows, slen, krange, irange, edomain, pdomain)
     params, pre_b, pre_o = list(pa), list(pb1), list(po1)
     bexpr = 'None'
     if b_rows is not None:
-        pb, pb2, po2, bexpr = table_params('b', b_rows, slen, krange, irange, edomain)
+        pb, pb2, po2, bexpr = table_params('b', b_rows, slen, krange, irange, edomain, pdomain)
         params += pb
         pre_b += pb2
         pre_o += po2
